@@ -62,16 +62,15 @@ fn value(m: &Model) -> String {
     format!("{:?} {:?} {}", v, f, bits)
 }
 
-/// Same value up to floating-point rounding, as far as it can be told from the printed values: the
-/// two values have the same type and the same text once the digits are removed ("1.80.1" and
-/// "1.79999999999999980.1", 0.6 and 0.6000000000000001). The decisive condition is checked by the
-/// caller: the new value is EXACTLY the value of the re-associated tree.
+/// Sanity condition of the class `associative_float_rounding`: both values are of the same kind
+/// (number / text / boolean). The decisive condition is checked by the caller: the new value is
+/// EXACTLY the value of the re-associated tree typed as such — and the structural oracle checks that
+/// the re-associated tree is what the printed text parses to. Since + and & are associative, a
+/// difference between the two trees can only come from rounding (cancellation included:
+/// 0.5%+(1-1) = 0.005 but (0.5%+1)-1 = 0.004999999999999893).
 fn approx_same(a: &str, b: &str) -> bool {
-    let skel = |v: &str| -> String {
-        let v = match v.rfind(' ') { Some(i) => &v[..i], None => v }; // drop the bit pattern
-        v.chars().filter(|c| !c.is_ascii_digit()).collect()
-    };
-    skel(a) == skel(b)
+    let kind = |v: &str| -> String { v.split('(').take(2).collect::<Vec<_>>().join("(") };
+    kind(a) == kind(b)
 }
 
 fn eval_text(m: &mut Model, text: &str) -> String {
